@@ -268,6 +268,23 @@ def native_end_to_end(tier):
                 if code != expc:
                     failures.append(dict(key="exit-code-e2e", what="large file (%s) -> exit code %r, expected %r (the API %s it)" % (
                         name, code, expc, "rejects" if exp else "accepts"), args=dict(case=name)))
+        # a CID the container reader gives up on is a rejected CID (exit code 1), like one with a broken declaration
+        bad_cids = {"latin1_in_utf8.csv": "d,format,delimited\nf,stra\u00dfe\n".encode("latin-1"), "unterminated_quote.csv": b'd,format,delimited\nf,"k\n',
+                    "not_a_spreadsheet.ods": b"d,format,delimited\nf,k\n", "not_a_workbook.xlsx": b"d,format,delimited\nf,k\n",
+                    "truncated.ods": b"PK\x03\x04" + b"\x00" * 30, "empty.csv": b"", "only_comments.csv": b",a comment\n\n"}
+        for fname, payload in bad_cids.items():
+            n += 1
+            cp = os.path.join(d, "badcid_" + fname)
+            open(cp, "wb").write(payload)
+            for files in ([], [paths["accepted"]]):
+                with contextlib.redirect_stderr(io.StringIO()):
+                    try:
+                        code = applications.main(["cutplace", "--log", "critical", cp] + files)
+                    except SystemExit as e:
+                        code = "exit%s" % e.code
+                if code != 1:
+                    failures.append(dict(key="exit-code-e2e", what="CID file %s (cannot be read as a CID) with %d data file(s) -> exit code %r, expected 1" % (
+                        fname, len(files), code), args=dict(cid=fname)))
         # odd files and odd file names: every named file is judged, and judged as the API judges it
         cids = {"plain": "d,format,delimited\nf,k,,,1\n", "needs a row": "d,format,delimited\nf,k,,,1\nc,some,DistinctCount,k >= 1\n",
                 "header": "d,format,delimited\nd,header,1\nf,k,,,1\n", "ods": "d,format,ods\nf,k,,,1\n", "excel": "d,format,excel\nf,k,,,1\n",
